@@ -50,6 +50,39 @@ HARNESSES += [
          bounds=dict(quick=dict(defs=dict(PMAX=2), unwind=24, unwindset={'ll_memcmp.0': 12, 'll_strlen.0': 12, 'll_memcpy.0': 12}, cap=300))),
 ]
 
+HARNESSES += [
+    dict(id='c14_object_init', property='C14', src='c14_object_init.cxx', entry='harness_c14_object_init',
+         tus=['src/interrogate/interfaceMaker.cxx'], skip_ctors=['interfaceMaker.cxx'], tuflags=['-fno-inline'], models=['noinline.c'],
+         desc='the REAL constructors of InterfaceMaker::Object / Function / MakeSeq / Property run in storage whose previous '
+              'contents are symbolic (stale heap bytes); then the real Object::check_protocols()',
+         domain='every previous content of the storage (each byte nondet); flags of one constructor and one method symbolic (2 x 32 bits)',
+         oracle='every scalar member the generators read has its documented initial value (_protocol_types 0, _flags 0, _has_this false, '
+                '_args_type AT_unknown, accessor pointers null) and the containers are empty; check_protocols() yields 0 on an object '
+                'without functions and otherwise exactly the documented function of the OR of the flags',
+         cbmc_flags=['--max-field-sensitivity-array-size', '200'],   # the raw storage (<= 112 bytes) stays field-sensitive
+         bounds=dict(quick=dict(unwind=120, cap=300))),
+]
+
+_WFI = '_ZN26InterfaceMakerPythonNative23write_function_instanceERSoP13FunctionRemapiiRNSt7__cxx1112basic_stringIcSt11char_traitsIcESaIcEEEibbN14InterfaceMaker8ArgsTypeEibRKS8_'
+HARNESSES += [
+    dict(id='c14_forset_kwname', property='C14', src='c14_forset_kwname.cxx', entry='harness_c14_forset_kwname',
+         tus=['src/interrogate/interfaceMakerPythonNative.cxx', 'src/interrogate/functionRemap.cxx', 'src/interrogate/interfaceMaker.cxx'],
+         cut=['_Z13get_type_sortP7CPPType', _WFI, '_ZNK13FunctionRemap20write_orig_prototypeERSoibi'],
+         skip_ctors=['interfaceMakerPythonNative.cxx', 'functionRemap.cxx', 'interfaceMaker.cxx'], models=['noinline.c'],
+         cbmc_flags=['-DVS_CAP=128', '--max-field-sensitivity-array-size', '700', '--no-pointer-check'],
+         desc='the REAL write_function_forset on a std::set of two one-argument overloads (keyword-argument convention): the '
+              'Dtool_ExtractArg-by-keyword decision and the emitted text, run once with overload A at the lower address and once '
+              'with B there; write_function_instance / write_orig_prototype are recording stand-ins, get_type_sort an uninterpreted table',
+         domain='2 overloads; parameter names of 5 letters: a shared symbolic prefix, first difference w/s at a concrete position, symbolic '
+                'independent letters behind it (quick: names differ at the first letter, static function, overload A more specific; thorough: '
+                'equal names and every position of the first difference, _has_this 0 / 1, both specificity orders; all concrete loops); both address orders (the set is built node by node in the shape std::set gives two keys in address order)',
+         oracle='token streams of the two runs identical (vs_same_output), recorded (overload, args_type, arity) call sequences identical, '
+                'and args_type handed on is AT_single_arg exactly when the two names are equal',
+         bounds=dict(quick=dict(defs=dict(HAS_THIS=0, VLO=0, VHI=0, DIRHI=0), unwind=24, unwindset={'ll_memcmp.0': 12, 'll_strlen.0': 64, 'll_memcpy.0': 12, 'll_ctlz.0': 66, 'vs_same_output.0': 130, '_ZSt16__ostream_insertIcSt11char_traitsIcEERSt13basic_ostreamIT_T0_ES6_PKS3_l.0': 64}, cap=400),
+                     # thorough: names equal / first difference at every position, static function and method, both specificity orders
+                     thorough=dict(defs=dict(VLO=0, VHI=5, DIRHI=1), unwind=24, unwindset={'ll_memcmp.0': 12, 'll_strlen.0': 64, 'll_memcpy.0': 12, 'll_ctlz.0': 66, 'vs_same_output.0': 130, '_ZSt16__ostream_insertIcSt11char_traitsIcEERSt13basic_ostreamIT_T0_ES6_PKS3_l.0': 64}, cap=3000))),
+]
+
 PROPERTY_INFO = {
     'C14': dict(level='model_checking',
                 explanation='bounded symbolic execution (CBMC) of the real main(): clock and environment are symbolic variables',
